@@ -15,6 +15,7 @@ import PS.Proofs.UcfgFromDftaCount
 import PS.Proofs.UcfgFromDftaNodup
 import PS.Proofs.UcfgFromDftaClean
 import PS.Proofs.UcfgFromDftaTerm
+import PS.Proofs.UcfgFromDftaCleanTerm
 import PS.Proofs.FromCfg
 import PS.Proofs.UcfgFromDftaCfg
 import PS.Proofs.Mass
@@ -228,6 +229,71 @@ theorem C06_clean_fromDFTA_partial (d : Q → UNT U) (A : DFTA Sym Q) (hd : A.De
       intro e; rw [e] at hg; simp at hg
     have := List.length_pos_iff.mpr this
     omega
+
+/-- the arguments occurring in the row of a key of the built table come from rules of the
+    automaton read at that key -/
+theorem argsOf_built {V : Type} [DecidableEq V] {F : Flat Q U V} {A : DFTA Sym Q} {G : UCFG V}
+    (hb : Built F A G) (S a : UNT V) (ha : a ∈ CL.argsOf G S) :
+    S ∈ AList.keys G.rules ∧ ∃ r ∈ A.rules, matchesTgt F S r = true ∧ a ∈ newArgs F S r.1.1 r.1.2 := by
+  unfold CL.argsOf at ha
+  cases hl : AList.lookup S G.rules with
+  | none => rw [hl] at ha; cases ha
+  | some row =>
+    rw [hl] at ha
+    simp only at ha
+    have hk : S ∈ AList.keys G.rules := AList.lookup_isSome_iff_mem_keys.mp (by rw [hl]; rfl)
+    have hre := hb.rows _ (AList.lookup_some_mem hl)
+    simp only at hre
+    obtain ⟨e, he, hae⟩ := List.mem_flatMap.mp ha
+    obtain ⟨args, hargs, haa⟩ := List.mem_flatMap.mp hae
+    obtain ⟨r, hr, hi, e2⟩ := (mem_row_iff (F := F) (A := A) S e.1 args).mp ⟨e.2, by rw [← hre]; exact he, hargs⟩
+    simp only [isAlt, Bool.and_eq_true, decide_eq_true_eq] at hi
+    exact ⟨hk, r, hr, hi.1, by rw [hi.2, ← e2]; exact haa⟩
+
+/-- **`clean()` returns** on the grammar that `from_DFTA` builds from an acyclic automaton, for
+    every number of iterations beyond a bound (the size of the exploration from the start
+    configurations) — with `C06_clean_fromDFTA_partial`: total correctness of
+    `UCFG.from_DFTA(dfta)` with its default `clean=True`. -/
+theorem C06_clean_terminates_partial (d : Q → UNT U) (A : DFTA Sym Q) (hinj : InjOn d A)
+    (hac : Acyclic A) (G : UCFG U) (h : fromDFTA d A = some G) :
+    ∃ fuel0, ∀ fuel, fuel0 ≤ fuel → ∃ Gc, clean G fuel = some Gc := by
+  obtain ⟨rank, hrank⟩ := hac
+  have hb := built_of_build _ A _ G h
+  let rankU : UNT U → Nat := fun x =>
+    match A.allStates.find? (fun q => decide (d q = x)) with
+    | some q => rank q
+    | none => 0
+  have hru : ∀ q ∈ A.allStates, rankU (d q) = rank q := by
+    intro q hq
+    show (match A.allStates.find? (fun q' => decide (d q' = d q)) with
+      | some q' => rank q' | none => 0) = rank q
+    cases hfind : A.allStates.find? (fun q' => decide (d q' = d q)) with
+    | none =>
+      have := List.find?_eq_none.mp hfind q hq
+      simp at this
+    | some q' =>
+      have h1 := List.find?_some hfind
+      have h2 := List.mem_of_find?_eq_some hfind
+      simp only [decide_eq_true_eq] at h1
+      rw [hinj q' h2 q hq h1]
+  have hrk : ∀ S, ∀ a ∈ CL.argsOf G S, rankU a < rankU S := by
+    intro S a ha
+    obtain ⟨_, r, hr, hm, hx⟩ := argsOf_built hb S a ha
+    obtain ⟨a', ha', i, rfl⟩ := mem_newArgs S r.1.1 r.1.2 a hx
+    have hst := mem_allStates_of_rule A (l := r.1.1) (args := r.1.2) (d := r.2) hr
+    have hS : d r.2 = S := by
+      have := hm
+      simp only [matchesTgt, plainFlat, id] at this
+      exact of_decide_eq_true this
+    show rankU (d a') < rankU S
+    rw [← hS, hru a' (hst.2 a' ha'), hru r.2 hst.1]
+    exact hrank r hr a' ha'
+  have hclosed : ∀ S ∈ AList.keys G.rules, ∀ a ∈ CL.argsOf G S, a ∈ AList.keys G.rules := by
+    intro S hS a ha
+    obtain ⟨_, r, hr, hm, hx⟩ := argsOf_built hb S a ha
+    exact hb.closed S hS r hr hm a hx
+  refine ⟨CL.pot G rankU (cleanInit G).toTest + 1, fun fuel hfuel => ?_⟩
+  exact CL.clean_terminates G rankU hrk hclosed hb.starts fuel (by omega)
 
 /-! ## with the Python state values and `__d2state__` -/
 
